@@ -72,6 +72,12 @@ def queries(tier):
             dd["SYMTOPICS"] = 1
             words.append((w, dd))
     qs += pub_queries(tier)
+    # one arriving message is handed to every waiting context through the completion list of the real core/aio.c (the skeletons run on the aio model)
+    from props import C02
+    for q in C02.queries(tier):
+        if q.name.startswith("aio-completions"):
+            q.group = "~" + q.group + "#c05"
+            qs.append(q)
     XENV = ENV + ["env_idmap.c"]
     for rq in (0, 1, 2):
         for nw in (1, 2, 3):
